@@ -418,6 +418,16 @@ func (e *Env) QueryDirective(ctx context.Context, next graphql.Resolver) (any, e
 	return next(ctx)
 }
 
+// OpDirective is the universal implementation of the executable directives @oq (QUERY) and
+// @om (MUTATION) that an operation carries on its definition: plan key "$".
+func (e *Env) OpDirective(ctx context.Context, next graphql.Resolver) (any, error) {
+	e.logCall("$")
+	if e.Plan.Get("$") == "error" {
+		return nil, errors.New("E@$")
+	}
+	return next(ctx)
+}
+
 // subscribe returns a channel of the element type fed by a managed thread according to
 // the script for this path: steps "emit", "close"; default: emit, emit, close.
 func (e *Env) subscribe(ctx context.Context, ct reflect.Type, path string) reflect.Value {
